@@ -15,7 +15,7 @@ def run(ctx):
         "error names are compared as sets when the reference leaves the choice open or several preconditions are violated",
         "harness: psbind (materialisation and graph comparison), model/BigInt cross-checked against math/big by setup",
     ]
-    summ, vec, base = pscommon.run_mbt(ctx, "MC_PSOps", {"Tier": '"%s"' % ctx.tier}, "psops")
+    summ, vec, base = pscommon.run_mbt(ctx, "MC_PSOps", {"Tier": '"%s"' % ctx.tier, "OpSet": '"data"'}, "psops")
     ctx.exhaustive = True
     missing = [op for op, n in summ["per_op"].items() if summ["per_op_ok"].get(op, 0) == 0]
     if missing:
